@@ -422,6 +422,7 @@ func (w *World) checkNumericBuiltins(P string, f *Facts, r *Roles) {
 		okAcc := false
 		accDetail := "no float64 accumulator `acc = acc + x.Number()` found"
 		accFns := map[*ssa.Function]bool{}
+		badTerm := ""
 		var sumFns []*ssa.Function
 		for g := range staticReach(fn, func(x *ssa.Function) bool { return fnPkgKey(x) == "exec" }) {
 			if fnPkgKey(g) == "exec" {
@@ -465,9 +466,15 @@ func (w *World) checkNumericBuiltins(P string, f *Facts, r *Roles) {
 					accFns[g] = true
 					accDetail = "float64 accumulator adds the number of each node (Number() of it, the spelled-out number(string-value(node)), or a helper of the package that returns exactly that)"
 				} else {
-					accDetail = "the added term is not Number() of a node"
+					badTerm = w.pos(bo.Pos())
 				}
 			})
+		}
+		if badTerm != "" {
+			// every term, not just one of them (a fast path that adds the number of a node's first text child
+			// instead of its string-value is a different sum)
+			okAcc = false
+			accDetail = "a term added to the accumulator is not Number() of a node: " + badTerm
 		}
 		w.check(P, "R06.4", "builtin sum", fn.Pos(), okAssert && okAcc, fmt.Sprintf("argument asserted to NodeSet: %v; %s", okAssert, accDetail))
 		// every node is added: the loops of sum leave only at their bound (an early exit "once the total is NaN or
